@@ -95,6 +95,11 @@ impl Structure {
         }
         if self.advice_cells != o.advice_cells {
             v.push("advice cell positions");
+            if std::env::var("ZKSIM_DEBUG").is_ok() {
+                let a: Vec<_> = self.advice_cells.difference(&o.advice_cells).take(12).collect();
+                let b: Vec<_> = o.advice_cells.difference(&self.advice_cells).take(12).collect();
+                eprintln!("only without witness: {a:?}; only with witness: {b:?}");
+            }
         }
         if self.instance_queries != o.instance_queries {
             v.push("instance queries");
